@@ -1110,22 +1110,29 @@ class AsyncBackgroundBatcher(Generic[A_contra, R_co]):
         except KeyError:
             pass
         else:
-            return await fut
+            # Shield: the future is shared with every caller of this key
+            return await aio.shield(fut)
 
         fut = self._retention_cache[key] = self._loop.create_future()
+        fut.add_done_callback(partial(self._forget, key))
         await self._queue.put((key, arg, fut))
+        return await aio.shield(fut)
 
-        try:
-            return await fut
-        finally:
-            if self.retention_timeout > 0:
-                self._loop.call_later(
-                    self.retention_timeout,
-                    self._retention_cache.pop,
-                    key,
-                )
-            else:
-                del self._retention_cache[key]
+    def _forget(self, key: str, fut: 'aio.Future[R_co]') -> None:
+        """
+        Drop the future of a finished request from the retention cache,
+        after the retention timeout if there is one.
+        """
+        fut.exception()  # Mark as retrieved, every caller may be gone
+        if self.retention_timeout > 0:
+            self._loop.call_later(
+                self.retention_timeout,
+                self._retention_cache.pop,
+                key,
+                None,
+            )
+        else:
+            self._retention_cache.pop(key, None)
 
     def _daemon_task(
         self,
